@@ -166,6 +166,8 @@ type histProp struct {
 	exec func(c *Case, generate bool) (*Violation, *execStats)
 }
 
+var minimisedSigs = map[string]bool{}
+
 func (h *histProp) Run(seed uint64, tier string) *Result {
 	c := h.header(seed, tier)
 	v, st := h.exec(c, true)
@@ -179,7 +181,15 @@ func (h *histProp) Run(seed uint64, tier string) *Result {
 	res.Fp = hashLines(append([]string{c.Pkg, c.Target}, st.Trace...))
 	res.Nontrivial = st.Probes["state_changes"] > 0
 	res.Sample = map[string]any{"pkg": c.Pkg, "target": c.Target, "faults": c.Faults, "ops": ops, "trace_tail": tail(st.Trace, 6)}
+	if v != nil && minimisedSigs[v.Signature] {
+		// this process has already reproduced and minimised a case with this signature (the
+		// driver files one replay per signature): report the recorded history as it is
+		res.Violation = v
+		res.Case = c
+		return res
+	}
 	if v != nil {
+		minimisedSigs[v.Signature] = true
 		// re-check that the recorded case reproduces, then shrink it
 		v2, _ := h.exec(c.clone(), false)
 		if v2 == nil || v2.Signature != v.Signature {
